@@ -142,6 +142,14 @@ func evalOutcome(oc *Outcome) []finding {
 	if len(oc.FdFinal) > 0 {
 		out = append(out, finding{"no descriptor remains after everything was closed", "life-fd-leak:" + t, strings.Join(oc.FdFinal, "; ")})
 	}
+	if oc.Spec.ServerKind == "blockdial" && oc.DialEnd != "" {
+		if oc.DialEnd != "canceled" {
+			out = append(out, finding{"Close aborts a pending connect through the client's context", "life-close-dial-not-aborted:client", "the blocked " + oc.Spec.DialBlock + " connect ended by " + oc.DialEnd + ", not by the cancellation of Close"})
+		}
+		if !oc.APIErr {
+			out = append(out, finding{"the API call pending during Close returns an error", "life-close-pending-call-no-error:client", "the call blocked in the connect returned nil"})
+		}
+	}
 	if len(oc.NotClosed) > 0 {
 		out = append(out, finding{"every listener and socket the closed object opened is closed when Close returns", "life-socket-not-closed:" + t, strings.Join(oc.NotClosed, "; ")})
 	}
